@@ -34,7 +34,7 @@ class GCWorld:
         self.ns = nslots
         self.atoms = {('global', 'NULL'): 0, ('elem', 'gc', 0, 'entries'): ENTS, ('elem', 'gc', 0, 'nslots'): nslots, ('elem', 'gc', 0, 'nitems'): 0,
                       ('elem', 'gc', 0, 'mitems'): 1000, ('elem', 'gc', 0, 'minptr'): 0, ('elem', 'gc', 0, 'maxptr'): 1 << 40,
-                      ('elem', 'gc', 0, 'running'): 1, ('elem', 'gc', 0, 'freenum'): 0, ('elem', 'gc', 0, 'freelist'): FL, ('elem', 'gc', 0, 'bottom'): 0}
+                      ('elem', 'gc', 0, 'running'): 1, ('elem', 'gc', 0, 'freenum'): 0, ('elem', 'gc', 0, 'freelist'): 0, ('elem', 'gc', 0, 'bottom'): 0}
         self.extra_fields = [f[0] for f in P.records['GCEntry']['fields'] if f[0] not in FIELDS]
         for i in range(nslots):
             for f in FIELDS + tuple(self.extra_fields):
@@ -292,6 +292,7 @@ def eval_registry(P):
     W.atoms[('elem', 'gc', 0, 'nitems')] = 1
     if W.run(setf, [GC, 8 * 10, 0])[0] == 'ret':
         W.atoms[('elem', 'gc', 0, 'freenum')] = 2
+        W.atoms[('elem', 'gc', 0, 'freelist')] = FL
         W.atoms[('elem', 'fl', 0, None)] = 8 * 11
         W.atoms[('elem', 'fl', 1, None)] = 8 * 90
         W.events = []
